@@ -209,29 +209,6 @@ def stepApiAuto (op : String) (args : List String) (outs : List Nat) : Option (A
 
 def isApiAutoLineOp (op : String) : Bool := op == "a_eq" || op == "a_ne"
 
-/-- `dd._copy.copy_bdd` / `copy_bdds_from` between two autoref managers -/
-def isApiXCopyOp (op : String) : Bool := op == "a_xcopy" || op == "a_xcopy_from"
-
-def stepXCopy (s : ASess) (id : Nat) (op : String) (args : List String) : ASess × String :=
-  match splitOuts args with
-  | none => (s, "err BAD-LINE")
-  | some (args', outs) =>
-    if outs.any (handleLive s) || !(decide outs.Nodup) then (s, "err BAD-HANDLE") else
-    match op, args', outs with
-    | "a_xcopy", [u, dst], [h] =>
-      match parseHandle? u, parseNat? dst with
-      | some u, some dst =>
-        if id = dst then (s, "err BAD-LINE") else
-        runA2 s id dst fun src => do return .int (← aXCopyTo src u h)
-      | _, _ => (s, "err BAD-LINE")
-    | "a_xcopy_from", [us, dst], hs =>
-      match (splitOn1 us ',').mapM parseHandle?, parseNat? dst with
-      | some us, some dst =>
-        if id = dst || us.length != hs.length then (s, "err BAD-LINE") else
-        runA2 s id dst fun src => do return .ints (← aXCopyFrom src us hs)
-      | _, _ => (s, "err BAD-LINE")
-    | _, _, _ => (s, "err BAD-LINE")
-
 /-- ops on one `dd.mdd.MDD` manager -/
 def stepApiMdd (op : String) (args : List String) : Option (MM DRes) :=
   match op, args with
@@ -323,9 +300,14 @@ def stepLineApi (st : ApiSess) (line : String) : ApiSess × String :=
           (st, showOut ((assertIsomorphicOrders old new (splitOn1 supp ',')).map fun _ => DRes.unit))
         | _, _ => (st, "err BAD-LINE")
       | _, _ => (st, "err BAD-LINE")
-    else if isApiXCopyOp op then
-      let (a', o) := stepXCopy st.a id op args
-      ({ st with a := a' }, o)
+    else if isXCopyOp op then
+      match parseSched restSched, splitOuts args with
+      | none, _ => (st, "err BAD-SCHEDULE")
+      | _, none => (st, "err BAD-LINE")
+      | some sched, some (args', outs) =>
+        if outs.any (handleLive st.a) || !(decide outs.Nodup) then (st, "err BAD-HANDLE") else
+        let (a', o) := stepXCopy st.a id sched op args' outs
+        ({ st with a := a' }, o)
     else if isApiAutoLineOp op then
       match args with
       | [other] =>
